@@ -7,7 +7,9 @@ import os
 import sys
 
 VERIF_ROOT = os.path.dirname(os.path.dirname(os.path.abspath(__file__)))
-REPO_SRC = '/repo/src'
+# The checks registered in MANIFEST.json always run against /repo's working tree. MC_REPO_SRC exists only so that the seeded-change
+# runner (mutants/run.py) can point a check at a scratch worktree of /repo instead of editing /repo itself.
+REPO_SRC = os.environ.get('MC_REPO_SRC', '/repo/src')
 GUARD = 'AMPYCLOUD_VERIF'
 ORIG_PRMS = None
 
